@@ -83,7 +83,7 @@ def hist_to_scenario(hist, sid, stable, reread=False):
             steps.append({"op": "delete", "h": h, "pred": ["in", "id", sorted(st["ids"])]})
         elif op == "update":
             steps.append({"op": "update", "h": h, "pred": ["in", "id", sorted(st["ids"])],
-                          "set": [["val", str(st["val"])]], "newval": st["val"]})
+                          "set": [["val", str(st["val"])]], "setexpr": ["lit", st["val"]]})
         elif op == "upsert":
             steps.append({"op": "merge_insert", "h": h, "src": [[st["id"], st["val"]]],
                           "matched": "update_all", "not_matched": "insert_all"})
@@ -188,7 +188,7 @@ def run(prop, tier, families, own_invariants, reread=False, assumptions=None, qu
             for k, v in rep["counts"].items():
                 counts_total[k] = counts_total.get(k, 0) + v
             for b in rep["bad"]:
-                pos, scn, i, op, inv = b
+                pos, scn, i, op, inv, cls = b
                 if INV2PROP.get(inv) != prop and inv not in own_invariants:
                     continue
                 if inv not in own_invariants:
@@ -197,7 +197,7 @@ def run(prop, tier, families, own_invariants, reread=False, assumptions=None, qu
                 if scn_lines is None:
                     scn_lines = open(scn_file).read().splitlines()
                 scenario = json.loads(scn_lines[scn - 1])
-                out.report({"invariant": inv, "op": op},
+                out.report({"invariant": inv, "op": op, "class": cls} if cls else {"invariant": inv, "op": op},
                            f"{inv} violated by {op} (scenario {scn} step {i}) on the implementation trace",
                            {"scenario": scenario, "step": i, "invariant": inv, "trace": tf})
             if len(samples) < 3:
